@@ -161,9 +161,11 @@ class StepClock:
         sch = self.sched
         if sch is not None and sch.started:
             # pre-emption point of the thread scheduler (only one thread of the simulated process runs at a time)
-            sch.on_line(sys._getframe(2))
-            if self.dead:
-                raise SimInterrupt(self.interrupt_site or "dead")
+            sch.lines += 1
+            if sch.lines >= sch.next_at:
+                sch.on_line(sys._getframe(2))
+                if self.dead:
+                    raise SimInterrupt(self.interrupt_site or "dead")
         ia = self.interrupt_at
         if ia is not None and self.steps >= ia and (sch is None or not sch.started or _thread.get_ident() == sch.main.ident):
             # (signals are delivered to the main thread)
